@@ -70,6 +70,10 @@ type stateMachine struct {
 	term  uint64
 	ch    chan interface{}
 	snaps *snapshots
+
+	// last config entry applied (or restored from snapshot):
+	// the config in force at index. zero if none seen yet
+	config Config
 }
 
 func (fsm *stateMachine) runLoop() {
@@ -124,6 +128,8 @@ func (fsm *stateMachine) onApply(t fsmApply) {
 		}
 		if e.typ == entryUpdate {
 			fsm.Update(e.data)
+		} else if e.typ == entryConfig {
+			fsm.onConfig(e)
 		}
 		fsm.index, fsm.term = e.index, e.term
 	}
@@ -139,6 +145,8 @@ func (fsm *stateMachine) onApply(t fsmApply) {
 			resp = fsm.Read(ne.cmd)
 		} else if ne.typ == entryUpdate {
 			resp = fsm.Update(ne.data)
+		} else if ne.typ == entryConfig {
+			fsm.onConfig(ne.entry)
 		}
 		if ne.isLogEntry() {
 			fsm.index, fsm.term = ne.index, ne.term
@@ -146,6 +154,16 @@ func (fsm *stateMachine) onApply(t fsmApply) {
 		ne.reply(resp)
 	}
 	assert(fsm.index == commitIndex)
+}
+
+// remembers the config in force at the index being applied,
+// so that snapshot taken at fsm.index is labelled with it
+func (fsm *stateMachine) onConfig(e *entry) {
+	config := Config{}
+	if err := config.decode(e); err != nil {
+		panic(opError(err, "Log.Get(%d).Config.decode", e.index))
+	}
+	fsm.config = config
 }
 
 func (fsm *stateMachine) onSnapReq(t fsmSnapReq) {
@@ -166,9 +184,10 @@ func (fsm *stateMachine) onSnapReq(t fsmSnapReq) {
 		return
 	}
 	t.reply(fsmSnapResp{
-		index: fsm.index,
-		term:  fsm.term,
-		state: state,
+		index:  fsm.index,
+		term:   fsm.term,
+		config: fsm.config,
+		state:  state,
 	})
 }
 
@@ -182,6 +201,7 @@ func (fsm *stateMachine) onRestoreReq() error {
 		return opError(err, "FSM.Restore")
 	}
 	fsm.index, fsm.term = snap.meta.index, snap.meta.term
+	fsm.config = snap.meta.config
 	return nil
 }
 
@@ -242,6 +262,11 @@ func doTakeSnapshot(fsm *stateMachine, index uint64, config Config) (snapshotMet
 	}
 	resp := req.Result().(fsmSnapResp)
 	defer resp.state.Release()
+	if resp.config.Index > 0 {
+		// config in force at resp.index. the config captured when the request was
+		// accepted can be older, if a config got committed and applied meanwhile
+		config = resp.config
+	}
 
 	// write snapshot to storage
 	sink, err := fsm.snaps.new(resp.index, resp.term, config)
@@ -322,9 +347,10 @@ type fsmSnapReq struct {
 
 // takeSnapshot() <- fsmLoop
 type fsmSnapResp struct {
-	index uint64
-	term  uint64
-	state FSMState
+	index  uint64
+	term   uint64
+	config Config
+	state  FSMState
 }
 
 // snapLoop -> raft (after snapshot taken)
